@@ -17,11 +17,11 @@ func init() {
 	core.Register(&core.Prop{
 		ID:    "C13",
 		Level: "fault_enumeration",
-		Rule: "differential against crypto/ecdsa on P-224/256/384/521: (r,s) from the product of classes {valid, 0, 1, -1, -valid, N-1, N, N+1, N+valid, 2^bits-1, 2^bits, seeded} for r and s plus (r, N-s), digests of length 0..128; ASN.1: valid encodings, non-minimal/negative/empty integers, long-form, non-minimal and indefinite lengths, wrong tags, trailing bytes inside and after the SEQUENCE, every truncation, every single-bit flip of one valid DER per curve, seeded strings behind 30 xx 02. " +
+		Rule: "differential against crypto/ecdsa on P-224/256/384/521: (r,s) from the product of classes {valid, 0, 1, -1, -valid, N-1, N, N+1, N+valid, 2^bits-1, 2^bits, seeded} for r and s plus (r, N-s), constructed signatures with N <= R.x < P (r = R.x - N, public key solved for), digests of length 0..128; ASN.1: valid encodings, non-minimal/negative/empty integers, long-form, non-minimal and indefinite lengths, wrong tags, trailing bytes inside and after the SEQUENCE, every truncation, every single-bit flip of one valid DER per curve, seeded strings behind 30 xx 02. " +
 			"Producers: every fork signature (Sign, SignASN1, PrivateKey.Sign, BlindKeySign) verifies under crypto/ecdsa and every crypto/ecdsa signature verifies here. " +
 			"Fault enumeration: GenerateKey and every signing entry point under a scripted entropy reader that delivers f bytes in a given chunking (all at once, byte by byte, seeded splits, interleaved zero-length reads) and then fails permanently, f = 0..need+1 exhaustively (need measured on a never-failing reader): a nil error implies the reader never failed and at least the needed bytes were consumed; a failed reader implies a non-nil error and nil key / r,s / signature. " +
 			"distinct_nontrivial = distinct (curve, case class, r class, s class | DER class | entry point, fault position, chunking) keys",
-		Floors:      []string{"verify_agree_accept", "verify_agree_reject", "asn1_agree_accept", "asn1_agree_reject", "fork_signature_verifies_under_std", "std_signature_verifies_under_fork", "fault_error_returned", "fault_success_full_entropy", "s_plus_N_class", "asn1_bitflips"},
+		Floors:      []string{"verify_agree_accept", "verify_agree_reject", "asn1_agree_accept", "asn1_agree_reject", "fork_signature_verifies_under_std", "std_signature_verifies_under_fork", "fault_error_returned", "fault_success_full_entropy", "s_plus_N_class", "asn1_bitflips", "wrapped_r_signatures"},
 		Assumptions: []string{"crypto/ecdsa of the Go toolchain that builds the harness is the reference", "entropy failures are permanent and a failing Read delivers no bytes"},
 		Run:         runC13,
 	})
@@ -385,8 +385,60 @@ func runC13(c *core.Ctx) {
 				}
 			}
 		}
+		// ---------------- constructed signatures whose R has N <= R.x < P (so r = R.x - N "wraps" mod N)
+		if c.Next() {
+			c13Wrap(c, curve, c.CaseRng())
+		}
 		// ---------------- entropy faults
 		c13Faults(c, curve)
+	}
+}
+
+// c13Wrap builds valid signatures with r = R.x mod N and R.x >= N: pick R on the curve with x = N+i, any s and
+// digest e, and set the public key to Q = r^-1 (sR - eG). Honest signing reaches this with probability ~2^-100.
+func c13Wrap(c *core.Ctx, curve elliptic.Curve, r *core.Rand) {
+	p := curve.Params()
+	name := p.Name
+	n := 0
+	for i := int64(0); i < 4000 && n < 6; i++ {
+		x := new(big.Int).Add(p.N, big.NewInt(i))
+		if x.Cmp(p.P) >= 0 {
+			break
+		}
+		enc := make([]byte, 1+(p.BitSize+7)/8)
+		enc[0] = 2
+		x.FillBytes(enc[1:])
+		rx, ry := elliptic.UnmarshalCompressed(curve, enc)
+		if rx == nil {
+			continue
+		}
+		rr := new(big.Int).Sub(rx, p.N)
+		if rr.Sign() == 0 {
+			continue
+		}
+		n++
+		digest := r.Bytes(p.N.BitLen() / 8) // no truncation or shift: e = int(digest)
+		e := new(big.Int).SetBytes(digest)
+		s := new(big.Int).SetBytes(ScalarBytes(r, p.N, (p.N.BitLen()+7)/8))
+		sx, sy := curve.ScalarMult(rx, ry, s.Bytes())
+		qx, qy := sx, sy
+		if em := new(big.Int).Mod(e, p.N); em.Sign() != 0 {
+			ex, ey := curve.ScalarBaseMult(em.Bytes())
+			qx, qy = curve.Add(sx, sy, ex, new(big.Int).Sub(p.P, ey))
+		}
+		rinv := new(big.Int).ModInverse(rr, p.N)
+		qx, qy = curve.ScalarMult(qx, qy, rinv.Bytes())
+		k := &c13Key{curve: curve, fork: &ecdsa.PrivateKey{PublicKey: ecdsa.PublicKey{Curve: curve, X: qx, Y: qy}}, std: &stdecdsa.PrivateKey{PublicKey: stdecdsa.PublicKey{Curve: curve, X: qx, Y: qy}}}
+		if !stdecdsa.Verify(&k.std.PublicKey, digest, rr, s) {
+			c.Class("wrap_construction_rejected_by_std")
+			continue
+		}
+		k.verifyBoth(c, digest, rr, s, "r=R.x-N(wrapped)")
+		k.asn1Both(c, digest, derSig(rr, s), "wrapped-r")
+		c.Class("wrapped_r_signatures")
+	}
+	if n > 0 {
+		c.Sample(name+" wrapped r", map[string]any{"constructed": n})
 	}
 }
 
